@@ -440,6 +440,43 @@ theorem byAsset_not_exact :
 example : ∀ i ∈ [1, 2], ∀ o, getOrderFromStore (run init appleHistory).kv i = some o →
     [97, 112, 112, 108, 101, 115] <+: o.assetDenom → o.assetDenom = [97, 112, 112, 108, 101, 115] := by decide
 
+/-- **The proposed fix is correct**: if an index entry counts only when exactly 8 bytes follow the prefix
+(`iterateOrderIndexFixed`), the by-asset lookup is exact — no hypothesis on the denoms. -/
+theorem byAsset_exact_with_proposed_fix {s : Store} (hinv : IndexInv s) (d : Bytes) (id : UInt64) :
+    id ∈ (iterateOrderIndexFixed s (prefixAssetToOrder d)).map (·.1) ↔
+      ∃ o, s.get (keyOrder id) = some (.order o) ∧ o.assetDenom = d := by
+  have hh := (indexInvF_iff.mp hinv).1
+  unfold iterateOrderIndexFixed
+  constructor
+  · intro h
+    obtain ⟨⟨id', b⟩, hmem, rfl⟩ := List.mem_map.mp h
+    obtain ⟨e, he, hf⟩ := List.mem_filterMap.mp hmem
+    split_ifs at hf with h8
+    split at hf
+    · next b' id2 hv hp =>
+      cases hf
+      obtain ⟨o, ho, hm⟩ := scan_entry_live hinv he rfl
+      rcases mem_orderIndexEntries.mp hm with hq | hq | hq | ⟨_, hq⟩ <;>
+        simp [prefixAssetToOrder, idxMarketToOrder, idxAddressToOrder, idxAssetToOrder, idxMarketExternalIDToOrder] at hq
+      obtain ⟨hk, _⟩ := hq
+      have := List.append_inj' hk (by rw [h8, u64Bz_length])
+      rw [this.2, parseIndexKeySuffixOrderID_u64Bz] at hp
+      cases hp
+      exact ⟨o, ho, this.1.symm⟩
+    · cases hf
+  · rintro ⟨o, ho, rfl⟩
+    have hid := hh.record_id ho
+    subst hid
+    have := hh.indexed o.id o ho _ (mem_orderIndexEntries.mpr (Or.inr (Or.inr (Or.inl rfl))))
+    refine List.mem_map.mpr ⟨(o.id, o.tb), List.mem_filterMap.mpr ⟨(u64Bz o.id, .tbyte o.tb), ?_, ?_⟩, rfl⟩
+    · rw [mem_prefixStore]; exact this
+    · simp [u64Bz_length, parseIndexKeySuffixOrderID_u64Bz]
+
+/-- on the witness history the fixed scan for `apple` lists order 1 only -/
+example : iterateOrderIndexFixed (run init appleHistory).kv (prefixAssetToOrder [97, 112, 112, 108, 101]) = [(1, 0)] ∧
+    iterateOrderIndex (run init appleHistory).kv (prefixAssetToOrder [97, 112, 112, 108, 101]) = [(1, 0), (2, 0)] := by
+  decide
+
 /-- each of the three lookups lists an open order at most once -/
 theorem byMarket_once {s : Store} (hinv : IndexInv s) (m : UInt32) :
     ((iterateOrderIndex s (prefixMarketToOrder m)).map (·.1)).Nodup :=
